@@ -150,9 +150,14 @@ macro_rules! ord_forms {
             b2!($cx, $V, $qn, $un, "ordmax", a, b, Ord::max(q!($Q, a.clone()), q!($Q, b.clone())).value, Ord::max(a.clone(), b.clone()));
             b2!($cx, $V, $qn, $un, "ordmin", a, b, Ord::min(q!($Q, a.clone()), q!($Q, b.clone())).value, Ord::min(a.clone(), b.clone()));
             let (lo, hi) = if b <= c { (b.clone(), c.clone()) } else { (c.clone(), b.clone()) };
-            writeln!($cx.out, "b2 {} clamp:{} {} {} {} {} {} {}", <$V as Val>::NAME, hi.enc(), $qn, $un, a.enc(), lo.enc(),
-                enc_opt(&g(|| Ord::clamp(q!($Q, a.clone()), q!($Q, lo.clone()), q!($Q, hi.clone())).value)),
-                enc_opt(&g(|| Ord::clamp(a.clone(), lo.clone(), hi.clone())))).unwrap();
+            // a proper range, the degenerate ranges lo == hi (below, at and above the value) and the inverted
+            // range (both sides must panic alike)
+            for (lo, hi) in [(lo.clone(), hi.clone()), (b.clone(), b.clone()), (a.clone(), a.clone()), (c.clone(), c.clone()),
+                             (hi.clone(), lo.clone())] {
+                writeln!($cx.out, "b2 {} clamp:{} {} {} {} {} {} {}", <$V as Val>::NAME, hi.enc(), $qn, $un, a.enc(), lo.enc(),
+                    enc_opt(&g(|| Ord::clamp(q!($Q, a.clone()), q!($Q, lo.clone()), q!($Q, hi.clone())).value)),
+                    enc_opt(&g(|| Ord::clamp(a.clone(), lo.clone(), hi.clone())))).unwrap();
+            }
         }
     }};
 }
